@@ -219,6 +219,17 @@ def tensor_strategy(max_elems=24):
   return t()
 
 
+def cfg_strategy(cfgs):
+  """Class first, then a configuration of that class (so that small classes
+  such as quantized_hswish are not drowned by the big ones)."""
+  from hypothesis import strategies as st  # pylint: disable=g-import-not-at-top
+  by_cls = {}
+  for c in cfgs:
+    by_cls.setdefault(c["cls"], []).append(c)
+  return st.sampled_from(sorted(by_cls)).flatmap(
+      lambda k: st.sampled_from(by_cls[k]))
+
+
 def f_strategy():
   from hypothesis import strategies as st  # pylint: disable=g-import-not-at-top
   return st.one_of(
